@@ -7,7 +7,9 @@ From MSP Require Import L2.Sys.
 Local Open Scope N_scope.
 
 Definition oracle := N -> forall c, raw c.          (* the host's answer to the call with sequence number i *)
-Record mon := { nxt : N; live : gset N; ropen : gset N; wopen : gset N; bad : bool }.
+Record mon := { nxt : N; live : gset N; ropen : gset N; wopen : gset N; bad : bool; hfail : bool }.
+(* [hfail]: the host has failed some call: open/alloc answered NULL, read answered an error, write accepted a different number of
+   bytes than offered, seek failed *)
 
 Definition mk_answer (i : N) (c : call) : raw c -> answer c :=
   match c return raw c -> answer c with
@@ -21,7 +23,16 @@ Definition name_mode_ok (nm : fname) (mode : N) : bool :=
   match nm with FIn _ => mode =? MODE_READ | FOut _ => mode =? MODE_WRITE end.
 Definition isopen (m : mon) (h : N) : bool := bool_decide (h ∈ ropen m) || bool_decide (h ∈ wopen m).
 
-Definition upd (m : mon) (l r w : gset N) (b : bool) : mon := {| nxt := nxt m + 1; live := l; ropen := r; wopen := w; bad := bad m || b |}.
+Definition upd (m : mon) (l r w : gset N) (b : bool) : mon := {| nxt := nxt m + 1; live := l; ropen := r; wopen := w; bad := bad m || b; hfail := hfail m |}.
+Definition isfail (c : call) : answer c -> bool :=
+  match c return answer c -> bool with
+  | COpen _ _ => fun a => match a with None => true | Some _ => false end
+  | CAlloc _ => fun a => match a with None => true | Some _ => false end
+  | CRead _ _ => fun a => match a with RErr => true | RBytes _ => false end
+  | CWrite _ d => fun a => negb (Z.eqb a (Z.of_nat (length d)))
+  | CSeek _ _ _ => fun a => negb a
+  | _ => fun _ => false end.
+Definition mark (m : mon) (f : bool) : mon := {| nxt := nxt m; live := live m; ropen := ropen m; wopen := wopen m; bad := bad m; hfail := hfail m || f |}.
 Definition mstep (m : mon) (c : call) : answer c -> mon :=
   match c return answer c -> mon with
   | COpen nm mode => fun a =>
@@ -47,9 +58,9 @@ Definition mstep (m : mon) (c : call) : answer c -> mon :=
 Fixpoint run {A} (o : oracle) (m : mon) (p : prog A) : A * mon :=
   match p with
   | Ret a => (a, m)
-  | Do c k => let a := mk_answer (nxt m) c (o (nxt m) c) in run o (mstep m c a) (k a)
+  | Do c k => let a := mk_answer (nxt m) c (o (nxt m) c) in run o (mark (mstep m c a) (isfail c a)) (k a)
   end.
-Definition mon0 : mon := {| nxt := 0; live := ∅; ropen := ∅; wopen := ∅; bad := false |}.
+Definition mon0 : mon := {| nxt := 0; live := ∅; ropen := ∅; wopen := ∅; bad := false; hfail := false |}.
 
 Lemma run_bind {A B} o (p : prog A) (f : A -> prog B) m :
   run o m (bind p f) = let '(a, m') := run o m p in run o m' (f a).
@@ -196,4 +207,20 @@ Lemma t_free_none L R W : triple (st L R W) (call1 (CFree None)) (fun _ => st L 
 Proof.
   intros o m Hwf (HL & HR & HW). unfold call1. cbn [run mstep].
   split; [|unfold st; cbn; auto]. apply upd_wf; [exact Hwf|]. apply lt_succ_of_fresh; [apply Hwf|set_solver].
+Qed.
+
+(* ---------- tracking host failures (C10) ---------- *)
+Definition okh (m : mon) : Prop := hfail m = false.
+Definition sto (L R W : gset N) (m : mon) : Prop := st L R W m /\ okh m.
+Lemma sto_st L R W m : sto L R W m -> st L R W m. Proof. intros [H _]. exact H. Qed.
+
+(* a call that cannot fail keeps [okh]; one that can fail keeps it exactly when the host did not fail *)
+Lemma triple_okh (c : call) (P : mon -> Prop) (Q : answer c -> mon -> Prop) :
+  triple P (call1 c) Q ->
+  triple (fun m => P m /\ okh m) (call1 c) (fun a m => Q a m /\ (isfail c a = false -> okh m)).
+Proof.
+  intros T o m Hw [HP Hok]. specialize (T o m Hw HP). unfold call1 in *. cbn [run] in *.
+  set (a := mk_answer (nxt m) c (o (nxt m) c)) in *. destruct T as [Hw' HQ]. split; [exact Hw'|]. split; [exact HQ|].
+  intro Hf. unfold okh, mark in *. cbn [hfail]. rewrite Hf, orb_false_r.
+  destruct c; cbn [mstep upd hfail]; try exact Hok; repeat (match goal with |- context [match ?x with _ => _ end] => destruct x end; cbn [upd hfail]); exact Hok.
 Qed.
